@@ -98,8 +98,99 @@ func fileFacts(c *Ctx, f *parquet.File) {
 	}
 }
 
+// c01NilPointerElements: slices of pointers without the list tag are repeated columns with no level to express a nil
+// element; every write entry point stores the zero value of the element for it, and the file must stay readable.
+func c01NilPointerElements(c *Ctx, r *gen.Rand) {
+	type row struct {
+		ID    int64      `parquet:"id"`
+		Tags  []*string  `parquet:"tags"`
+		Items []*c16Item `parquet:"items"`
+	}
+	n := 1 + r.Intn(30)
+	rows := make([]row, n)
+	want := make([]row, n)
+	// only through the typed writer: the reflection-based entry points do not accept slices of scalar pointers at all
+	// (panic in makeValue) and mis-store nil struct elements through GenericWriter[any] (observation O8, not covered)
+	entry := "GenericWriter.Write"
+	nilTags := true
+	for i := range rows {
+		rows[i].ID, want[i].ID = int64(i), int64(i)
+		for j := r.Intn(4); j > 0; j-- {
+			if nilTags && r.P(40) {
+				rows[i].Tags = append(rows[i].Tags, nil)
+				want[i].Tags = append(want[i].Tags, new(string))
+			} else {
+				s := fmt.Sprintf("t%d.%d", i, j)
+				rows[i].Tags = append(rows[i].Tags, &s)
+				want[i].Tags = append(want[i].Tags, &s)
+			}
+		}
+		for j := r.Intn(4); j > 0; j-- {
+			if r.P(40) {
+				rows[i].Items = append(rows[i].Items, nil)
+				want[i].Items = append(want[i].Items, &c16Item{})
+			} else {
+				it := &c16Item{A: int64(i*10 + j), B: "b"}
+				rows[i].Items = append(rows[i].Items, it)
+				want[i].Items = append(want[i].Items, it)
+			}
+		}
+	}
+	c.D("type", "nil_pointer_elements")
+	c.D("rows", n)
+	c.D("entry", entry)
+	keys := map[string]any{"type": "nil_pointer_elements", "entry": entry}
+	var buf bytes.Buffer
+	var got []row
+	var err error
+	if c.guard("c01.write_panic", keys, func() {
+		switch entry {
+		case "GenericWriter.Write":
+			w := parquet.NewGenericWriter[row](&buf)
+			if _, err = w.Write(rows); err == nil {
+				err = w.Close()
+			}
+		case "Writer.Write(any)":
+			w := parquet.NewWriter(&buf, parquet.SchemaOf(row{}))
+			for i := range rows {
+				if err = w.Write(&rows[i]); err != nil {
+					return
+				}
+			}
+			err = w.Close()
+		default:
+			w := parquet.NewGenericWriter[any](&buf, parquet.SchemaOf(row{}))
+			for i := range rows {
+				if _, err = w.Write([]any{rows[i]}); err != nil {
+					return
+				}
+			}
+			err = w.Close()
+		}
+		if err == nil {
+			got, err = parquet.Read[row](bytes.NewReader(buf.Bytes()), int64(buf.Len()))
+		}
+	}) {
+		return
+	}
+	if err != nil {
+		c.Fail("c01.read_error", keys, "rows with nil pointer elements written through %s: %v", entry, err)
+		return
+	}
+	if ok, diff := eqNorm(reflect.ValueOf(want), reflect.ValueOf(got), "rows"); !ok {
+		c.Fail("c01.mismatch", keys, "rows with nil pointer elements written through %s read back differently (%d rows written, %d read): %s", entry, n, len(got), diff)
+		return
+	}
+	c.Obs("nil_pointer_element_files", 1)
+	c.Obs("files_read_back", 1)
+}
+
 func runC01(c *Ctx) {
 	r := c.R
+	if c.Case%40 == 23 {
+		c01NilPointerElements(c, r)
+		return
+	}
 	te := pickType(r, c)
 	n := rowCount(r, c.Thorough())
 	rows := genRows(r, te, n, genOpts{NoHuge: !c.Thorough() && n > 100})
